@@ -265,10 +265,21 @@ Fixpoint cells_of_rows (y : Z) (rows : list (list Z)) : res (list (cell * Z) * l
 Definition cellbuffer_of_text (s : list Z) (css : list (list Z * list Z)) : res cellbuffer :=
   do r <- cells_of_rows 0 (string_buffer s);
   let '(cells, escs) := r in Ok (CellBuffer cells css escs).
+(** [str::replace("\r\n", "\n")] (the repair F13: the legend is read with the same line-end
+    convention as the drawing); [pending]: a CR has been read and not yet written *)
+Fixpoint uncrlf_aux (pending : bool) (s : list Z) : list Z :=
+  match s with
+  | [] => if pending then [13] else []
+  | c :: t =>
+      if c =? 13 then (if pending then 13 :: uncrlf_aux true t else uncrlf_aux true t)
+      else if c =? 10 then 10 :: uncrlf_aux false t
+      else if pending then 13 :: c :: uncrlf_aux false t else c :: uncrlf_aux false t
+  end.
+Definition uncrlf (s : list Z) : list Z := uncrlf_aux false s.
 Definition cellbuffer_from (input : list Z) : res cellbuffer :=
   match find_sub LEGEND_MARK input [] with
   | Some (before, from) =>
-      match parse_css_legend from with
+      match parse_css_legend (uncrlf from) with
       | Some css => cellbuffer_of_text before css
       | None => cellbuffer_of_text input []
       end
